@@ -314,6 +314,13 @@ def run(chk: core.Check):
     finally:
         rec.close()
 
+    # ---- the command as PRINTED in the failure report ("Reproduce with:"), incl. multi-line payloads
+    rec2 = Recorder()
+    try:
+        chk.stages["printed_report"] = printed_report(chk, rec2, (12 if quick else 120) * (5 if chk.broken else 1))
+    finally:
+        rec2.close()
+
     # ---- listed findings: replay canonical witnesses on the implementation
     for f in chk.findings:
         chk.known(f, witness_fails(f["witness"]))
@@ -451,6 +458,55 @@ def end_to_end(chk, rec, n):
         elif i < 2:
             chk.sample({"e2e_case": parts, "command": cmd, "replayed_equal": True})
     return {"runs": done, "differences": fails}
+
+
+def printed_report(chk, rec, n):
+    """The text a user copies: the block after 'Reproduce with:' in the failure message produced by validate_response /
+    format_failures.  It is executed verbatim by dash + curl and the request is compared with the original one."""
+    from schemathesis.core.failures import Failure, FailureGroup
+
+    schema = build_schema(rec.url)
+    rng = chk.rng
+    op = schema["/items/{id}"]["POST"]
+    done = bad = 0
+
+    def always_fails(ctx, response, case):
+        raise AssertionError("force a report")
+
+    for i in range(n):
+        lines = rng.randint(1, 4)
+        body = "\n".join(rng.choice(["", "a: 1", "  - x", "key:", "'q' \"d\" $HOME `id`", "\ttab", "    four"]) for _ in range(lines))
+        if body.startswith("@") or body == "":
+            body = "x" + body
+        from requests.structures import CaseInsensitiveDict
+
+        case = op.Case(path_parameters={"id": "r" + str(i)}, query={"q": rng.choice(["1", "a b", "x'y"])},
+                       headers=CaseInsensitiveDict({"X-A": rng.choice(["v", "it's", 'say "hi"'])}), body=body, media_type="text/plain")
+        rec.take()
+        response = case.call()
+        first = rec.take()
+        try:
+            case.validate_response(response, checks=[always_fails])
+            continue
+        except FailureGroup as exc:
+            message = getattr(exc, "message", None) or str(exc)
+        if "Reproduce with:" not in message:
+            chk.fail("the failure report has no 'Reproduce with' block", {"body": body})
+            continue
+        block = message.split("Reproduce with:", 1)[1]
+        block = block.lstrip("\n ")
+        # the block ends at the end of the message; the command's first line carries the report's indentation only
+        cmd = block.rstrip("\n")
+        p = subprocess.run(["dash", "-c", cmd + " -s -o /dev/null --max-time 10"], capture_output=True, timeout=30, cwd="/")
+        second = rec.take()
+        done += 1
+        chk.seen({"printed": {"body": body}}, "\n" in body)
+        chk.count("printed:lines:" + str(lines))
+        diff = compare_e2e(first, second)
+        if diff is not None:
+            bad += 1
+            chk.fail(f"the command printed in the failure report sends a different request: {diff}", {"body": body, "report_block": cmd[:400]})
+    return {"runs": done, "differences": bad}
 
 
 def witness_fails(w) -> bool:
